@@ -334,7 +334,9 @@ class HashClient:
         try:
             failed = client.set_many(values, *args, **kwargs)
         except Exception as e:
-            if not self.ignore_exc:
+            # A connection failure is always handed back, so that the caller
+            # records it (retry window, eviction) even with ignore_exc.
+            if not self.ignore_exc or isinstance(e, OSError):
                 return succeeded, failed, e
 
         succeeded = [key for key in values if key not in failed]
